@@ -12,6 +12,9 @@ Decided (structural, necessary conditions; DESIGN.md section 5 / C10):
          OK_SCAN_CONTINUE) or a fresh, validated lookup of the layer's link in the upper layers found it gone
          (iscan_findnext: null result of a link-resolving descent); a stale version flag of the *saved* layer root is
          not such evidence (root split / interior root collapse leave the layer populated)
+  R-BACK  the neighbour's back link is tested after the neighbour's version snapshot, on every path to the hand-over
+  R-CACHE  a local that only mirrors the saved state of the current stack element (never written back) and is
+         changed to the child's value is read by nothing but the push of the child element until it is re-read
   R-LROOT  the layer root saved in a stack element is the root its border was found from (iscan_findfirst / findnext)
   R-STALE  locals of iscan_findnext copied from the stack top are not used after the stack changed (pop / push) unless
          they were re-read from the new stack top
@@ -447,6 +450,11 @@ def rule_layer(S):
     S.rule('R-STALE', 'iscan_findnext: a local whose value was read from ctx->stack_top() (directly or through the alias '
                       'pointer to the top element) is not read after stack_pop() / stack() / stack_clear() unless it '
                       'was assigned again')
+    S.rule('R-CACHE', 'iscan_findnext: a stack-derived local that is never written back to the stack element (a pure '
+                      'mirror of the saved state, e.g. the end-comparison state) may be assigned a value not read from '
+                      'the stack only to hand it to ctx->stack(...) (the child element); any other read before it is '
+                      're-read from the stack top - in particular after a retry edge - sees the state of a layer the '
+                      'cursor did not enter')
     f = facts.one(Y + 'iscan_findnext')
     g = facts.one(Y + 'iscan_next')
     CHG = (Y + 'iscan_context::stack_pop', Y + 'iscan_context::stack', Y + 'iscan_context::stack_clear')
@@ -490,6 +498,42 @@ def rule_layer(S):
     stale_sites = {}
     pop_sites = {}
     uses = [0]
+
+    def top_rooted(h, n):
+        r = h.strip(n, casts=True)
+        while r is not None and r['k'] == 'MemberExpr':
+            r = h.strip(h.ch(r)[0], casts=True)
+        return r is not None and (is_call(r, cq=Y + 'iscan_context::stack_top') or
+                                  (r['k'] == 'DeclRefExpr' and r.get('id') in aliases))
+
+    written_back = set()
+    assigned = set()
+    for n in f.all_nodes():
+        lhs = rhs = None
+        if n['k'] == 'BinaryOperator' and n.get('op') == '=':
+            lhs, rhs = f.ch(n)[0], [f.ch(n)[1]]
+        elif n['k'] == 'CXXOperatorCallExpr' and n.get('cn') == 'operator=' and len(n.get('args', [])) == 2:
+            lhs, rhs = f.node(n['args'][0]), [f.node(n['args'][1])]
+        elif n['k'] == 'CXXMemberCallExpr' and n.get('cn') in ('set_body',):
+            lhs, rhs = call_recv(f, n), call_args(f, n)
+        if lhs is None:
+            continue
+        l = f.strip(lhs, casts=True)
+        if l is not None and l['k'] == 'DeclRefExpr' and l.get('id') in derived:
+            assigned.add(l['id'])
+        if top_rooted(f, lhs):
+            for r in rhs:
+                for x in f.walk(r):
+                    if x['k'] == 'DeclRefExpr' and x.get('id') in derived:
+                        written_back.add(x['id'])
+    for n in f.all_nodes():   # by-reference out-parameters of the validation primitive count as write-backs handled by R-RES
+        if n['k'] in CALL_KINDS and (n.get('callee') or '').startswith(Y + 'iscan_check_retry'):
+            for a in call_args(f, n):
+                x = f.strip(a, casts=True)
+                if x is not None and x['k'] == 'DeclRefExpr' and x.get('id') in derived:
+                    written_back.add(x['id'])
+    mirrors = {v for v in derived if v in assigned and v not in written_back and v not in aliases}
+    cache_sites = {}
 
     def lhs_of_assign(h, n):
         p = h.parent(n)
@@ -552,6 +596,42 @@ def rule_layer(S):
     ex = Explorer(f, step, branch)
     ex.run((frozenset(), frozenset(), frozenset()))
     S.count('R-STALE: CFG visits', ex.visits)
+
+    # R-CACHE: pure mirrors of the saved element state
+    def cstep(ctx, n, div):
+        if n['k'] == 'DeclStmt':
+            for v in n.get('vars', []):
+                div = div - {v['id']}
+            return div
+        if n['k'] == 'BinaryOperator' and n.get('op') == '=':
+            l = f.strip(f.ch(n)[0], casts=True)
+            if l is not None and l['k'] == 'DeclRefExpr' and l.get('id') in mirrors:
+                if reads_top(f, f.ch(n)[1], aliases):
+                    return div - {l['id']}
+                return div | {l['id']}
+            return div
+        if n['k'] == 'DeclRefExpr' and n.get('id') in div and not lhs_of_assign(f, n):
+            q = f.parent(n)
+            if q is not None and is_call(q, cq=Y + 'iscan_context::stack'):
+                return div
+            site = 'read of %s' % derived[n['id']]
+            if site not in cache_sites:
+                cache_sites[site] = {'loc': short_loc(n), 'path': ctx.witness()}
+        if n['k'] == 'ReturnStmt':
+            return None
+        return div
+
+    if mirrors:
+        cex = Explorer(f, cstep, None)
+        cex.run(frozenset())
+        S.count('R-CACHE: CFG visits', cex.visits)
+    S.ob('R-CACHE', f.qname, 'pure mirrors of the saved element state: %s' % (', '.join(sorted(derived[v] for v in mirrors)) or 'none'),
+         not cache_sites, 'a value not read from the stack is only handed to the push of the child element' if not cache_sites
+         else 'after being set to the state of a child layer that was not entered, the local is read again (%s): the '
+              'current layer continues with the wrong state, e.g. without its end bound' % ', '.join(sorted(cache_sites)),
+         loc=(sorted(cache_sites.values(), key=lambda e: e['loc'])[0]['loc'] if cache_sites else None),
+         path=(sorted(cache_sites.values(), key=lambda e: e['loc'])[0]['path'] if cache_sites else None))
+    S.require('R-CACHE', 'pure mirrors of the saved element state in iscan_findnext', len(mirrors), 1)
     S.count('R-STALE: locals read from the stack top', len(derived))
     S.count('R-POP: link-resolving descents called by iscan_findnext', len(res_vars))
     S.ob('R-STALE', f.qname, 'reads of %d stack-derived locals (%s)' % (len(derived), ', '.join(sorted(derived.values()))),
@@ -661,6 +741,96 @@ def rule_lroot(S):
     S.require('R-LROOT', 'pushes of cursor stack elements', n, 5)
 
 
+def rule_back(S):
+    """R-BACK: neighbour hand-over of iscan_findnext - back-link test after the neighbour's version snapshot."""
+    facts = S.facts()
+    S.rule('R-BACK', 'iscan_findnext: on every path to the hand-over `bn = to_bn` the test that the neighbour links back '
+                     'to bn (to_bn->get_next() / get_prev() == bn) was evaluated after the neighbour\'s stable version '
+                     'was taken: a neighbour that split towards bn before the snapshot is then noticed (its upper half '
+                     'would otherwise be skipped by a right-to-left cursor); a split after the snapshot is caught by '
+                     'the version check of the next visit')
+    f = facts.one(Y + 'iscan_findnext')
+    bn = [v['id'] for n in f.all_nodes() if n['k'] == 'DeclStmt' for v in n['vars']
+          if v['type'] == 'yakushima::border_node *' and 'init' in v and
+          any(x['k'] == 'MemberExpr' and x.get('name') == 'bn' for x in f.walk(v['init']))]
+    if len(bn) != 1:
+        raise AnalysisBroken('R-BACK: the border variable of iscan_findnext was not found')
+    bn = bn[0]
+    hand = []
+    for n in f.all_nodes():
+        if n['k'] == 'BinaryOperator' and n.get('op') == '=':
+            l, r = f.strip(f.ch(n)[0], casts=True), f.strip(f.ch(n)[1], casts=True)
+            if l is not None and l['k'] == 'DeclRefExpr' and l.get('id') == bn and r is not None and \
+                    r['k'] == 'DeclRefExpr' and (r.get('ty') or '').replace(' ', '') == 'yakushima::border_node*':
+                hand.append((n, r['id']))
+    if len(hand) != 1:
+        raise AnalysisBroken('R-BACK: expected exactly one hand-over assignment bn = <neighbour>')
+    hnode, T = hand[0]
+    sites = {}
+    seen = {'snap': 0, 'back': 0}
+
+    def step(ctx, n, st):
+        snap, back, fs = st
+        if is_call(n, cq=occ.STABLE) and root_var(f, call_recv(f, n)) == T:
+            seen['snap'] += 1
+            return (True, False, fs)
+        if n['k'] == 'BinaryOperator' and n.get('op') == '=':
+            l = f.strip(f.ch(n)[0], casts=True)
+            if l is not None and l['k'] == 'DeclRefExpr' and l.get('id') == T:
+                return (False, False, frozenset())
+            if n is hnode:
+                e = sites.setdefault('hand-over at ' + short_loc(n), {'ok': True, 'loc': short_loc(n), 'path': None})
+                if not back:
+                    e['ok'] = False
+                    e['path'] = e['path'] or ctx.witness()
+        if n['k'] == 'DeclStmt' and any(v['id'] == T for v in n.get('vars', [])):
+            return (False, False, frozenset())
+        if n['k'] == 'ReturnStmt':
+            return None
+        return (snap, back, fs)
+
+    def is_backlink(x):
+        for y in f.walk(x):
+            if y['k'] in CALL_KINDS and y.get('cn') in ('get_next', 'get_prev') and root_var(f, call_recv(f, y)) == T:
+                return True
+        return False
+
+    def branch(ctx, blk, idx, st):
+        snap, back, fs = st
+        fs = R.refine(f, blk, idx, fs, ptrs={vname(T)})   # null-ness of the neighbour pointer only
+        if fs is None:
+            return None
+        t = blk.term
+        if t and len(blk.succ) == 2 and 'cond' in t:
+            c = f.strip(f.node(t['cond']))
+            flip = False
+            while c is not None and c['k'] == 'UnaryOperator' and c.get('op') == '!':
+                flip = not flip
+                c = f.strip(f.ch(c)[0])
+            if c is not None and c['k'] == 'BinaryOperator' and c.get('op') in ('==', '!='):
+                a, b = f.ch(c)[0], f.ch(c)[1]
+                for x, y in ((a, b), (b, a)):
+                    ys = f.strip(y, casts=True)
+                    if is_backlink(x) and ys is not None and ys['k'] == 'DeclRefExpr' and ys.get('id') == bn:
+                        seen['back'] += 1
+                        truth = (idx == 0) != flip
+                        equal = truth if c['op'] == '==' else not truth
+                        if equal and snap:
+                            back = True
+        return (snap, back, fs)
+
+    Explorer(f, step, branch).run((False, False, frozenset()))
+    S.require('R-BACK', 'neighbour snapshots in iscan_findnext', seen['snap'], 1)
+    S.require('R-BACK', 'back-link tests in iscan_findnext', seen['back'], 1)
+    for site, e in sorted(sites.items()):
+        S.ob('R-BACK', f.qname, site, e['ok'],
+             'the neighbour was confirmed to link back to bn after its version snapshot' if e['ok'] else
+             'the hand-over is reached without a back-link test made after the neighbour\'s version snapshot: a '
+             'neighbour that split towards bn in between is handed over with its post-split version and the keys it '
+             'moved are skipped', loc=e['loc'], path=e['path'])
+    S.require('R-BACK', 'hand-over sites', len(sites), 1)
+
+
 def rule_eq(S):
     """iscan_check_retry: the cursor's validation primitive (sibling of scan_check_retry, C06 R-EQ)."""
     facts = S.facts()
@@ -741,4 +911,5 @@ def run(S):
     rule_res(S)
     rule_layer(S)
     rule_lroot(S)
+    rule_back(S)
     rule_eq(S)
